@@ -256,7 +256,8 @@ func (r *Run) Finish(verifDir string, rules []*ruleInfo, started time.Time, seed
 			samples = append(samples, o)
 		}
 	}
-	assume := []string{"the Go toolchain's parser and type checker (go/packages, go/types) resolve the program as the compiler does; third-party packages (reflect2, cmap, fasthttp, websocket, net/http) behave as documented and are not analysed"}
+	assume := []string{"the Go toolchain's parser and type checker (go/packages, go/types) resolve the program as the compiler does; third-party packages (reflect2, cmap, fasthttp, websocket, net/http) behave as documented and are not analysed",
+		"guard facts (conditions that dominate a site) are collected syntactically and are not invalidated by an assignment to a variable they mention between the guard and the site; rules for which that matters accept only facts established after the last such assignment (V9) or use the path engine (walk.go) instead"}
 	for a := range r.Assume {
 		assume = append(assume, a)
 	}
